@@ -232,6 +232,8 @@ func (cs *ContractSet) parseContractLines(file, pkgPath string, lines []string, 
 				} else {
 					cur.Key = "(" + rt + ")." + name
 				}
+			} else if strings.HasPrefix(name, "funcval:") {
+				cur.Key = name
 			} else {
 				if pkgPath != "" && !strings.Contains(name, ".") {
 					name = pkgPath + "." + name
